@@ -172,6 +172,7 @@ type GenCfg struct {
 	WVar, WPrint, WEval, WExpr, WDef, WBind int
 	CompileErrPct                           int  // percent of programs with an injected static compile error
 	PreDecl                                 bool // start with one variable of every type
+	BadLitPct                               int  // percent of int literals spelled without a value (2^63, 08, 0x): the program must be rejected
 	ShadowBias                              bool // prefer re-using names (shadowing, var x = x+1)
 }
 
@@ -227,6 +228,11 @@ func (g *Gen) literal(want Kind) *Expr {
 	}
 	switch want {
 	case KInt:
+		if g.Cfg.BadLitPct > 0 && r.Intn(100) < g.Cfg.BadLitPct {
+			t := []string{"9223372036854775808", "08", "0x", "9223372036854775808", "0x8000000000000000", "099"}[r.Intn(6)]
+			g.Shapes["inject:badliteral"]++
+			return Lit(&Literal{Kind: LInt, Text: t, Bad: true, Val: 0})
+		}
 		if g.Cfg.HostileLits {
 			return Lit(GenIntLit(r))
 		}
@@ -242,7 +248,7 @@ func (g *Gen) literal(want Kind) *Expr {
 		if g.Cfg.HostileLits {
 			return Lit(SpellStr(r, GenStrValue(r), true))
 		}
-		return Lit(StrLit([]string{"", "a", "ab", "xyz", "hello world", "é"}[r.Intn(6)]))
+		return Lit(StrLit([]string{"", "a", "ab", "xyz", "hello world", "é", "1.5", "2.5"}[r.Intn(8)]))
 	case KBool:
 		return Lit(BoolLit(r.Intn(2) == 0))
 	}
@@ -675,19 +681,19 @@ var DefaultNames = []string{"a", "b", "c", "x", "y"}
 
 func CfgExpr() GenCfg {
 	return GenCfg{MaxStmts: 6, MaxBody: 4, ExprDepth: 5, MaxNest: 2, Names: []string{"a", "b", "c", "vi", "vf", "vs", "vb", "vn"},
-		Types: []string{"blk", "t"}, BlockNames: []string{"", "n1"}, ErrPct: 12, ParenPct: 12, AssignPct: 6, HostileLits: true,
+		Types: []string{"blk", "t"}, BlockNames: []string{"", "n1", "1.5", "0.5"}, ErrPct: 12, ParenPct: 12, AssignPct: 6, HostileLits: true,
 		WVar: 2, WPrint: 6, WEval: 1, WExpr: 5, WDef: 2, WBind: 0, PreDecl: true}
 }
 
 func CfgScope() GenCfg {
 	return GenCfg{MaxStmts: 14, MaxBody: 7, ExprDepth: 3, MaxNest: 5, Names: []string{"x", "y", "z", "w"},
-		Types: []string{"b", "c"}, BlockNames: []string{"", "", "n"}, ErrPct: 6, ParenPct: 5, AssignPct: 15,
+		Types: []string{"b", "c"}, BlockNames: []string{"", "", "n", "2.5", "1.5"}, ErrPct: 6, ParenPct: 5, AssignPct: 15,
 		WVar: 7, WPrint: 5, WEval: 3, WExpr: 5, WDef: 4, WBind: 0, CompileErrPct: 6, ShadowBias: true}
 }
 
 func CfgBlocks() GenCfg {
 	return GenCfg{MaxStmts: 9, MaxBody: 6, ExprDepth: 2, MaxNest: 4, Names: []string{"f", "g", "h", "TYPE", "NAME", "blk", "sub"},
-		Types: []string{"blk", "sub", "srv", "f"}, BlockNames: []string{"", "", "a", "b", "x y", "q\"uo", "é"}, ErrPct: 4, ParenPct: 3, AssignPct: 4,
+		Types: []string{"blk", "sub", "srv", "f"}, BlockNames: []string{"", "", "a", "b", "x y", "q\"uo", "é", "1.5", "2.5", "a.", "x.y.", "b", "0.5", "."}, ErrPct: 4, ParenPct: 3, AssignPct: 4,
 		HostileLits: true, WVar: 2, WPrint: 1, WEval: 1, WExpr: 8, WDef: 6, WBind: 0}
 }
 
